@@ -18,7 +18,8 @@ func isRoot(pos, numLeaves uint64, rows uint8) bool { return pos == numLeaves<<1
 func ProofPositions(origTargets []uint64, numLeaves uint64, totalRows uint8) ([]uint64, []uint64) {
 	targets := make([]uint64, len(origTargets))
 	copy(targets, origTargets)
-	var next, proof []uint64
+	next := make([]uint64, 0, min(len(origTargets)*int(totalRows+1), 2*int(numLeaves)))
+	var proof []uint64
 	if len(origTargets) > int(numLeaves) && TreeRows(numLeaves) > 0 {
 		return nil, nil
 	}
